@@ -193,6 +193,14 @@ func (app *App) processSubAppsRoutes() {
 				continue
 			}
 
+			// A sub-app shadowed in appList by another app mounted under the same prefix
+			// was not reached above: process its own mounts before copying its routes
+			if mounted := route.group.app; mounted.hasMountedApps() {
+				mounted.mountFields.subAppsRoutesAdded.Do(func() {
+					mounted.processSubAppsRoutes()
+				})
+			}
+
 			// Create a slice to hold the sub-app's routes
 			subRoutes := make([]*Route, len(route.group.app.stack[m]))
 
